@@ -26,7 +26,7 @@ Inductive dstmt :=
 | DReadCoil                    (* bind coil_to_bool(read_u16_be(rdr)?)?                               *)
 | DReadRun                     (* bind match rdr.read_u8()? { 0x00 => false, 0xFF => true, _ => Err } *)
 | DFailIf (c : dcond)          (* if c { return Err(InvalidData) }                                    *)
-| DLet (e : dexp)              (* bind e                                                              *)
+| DLet (e : dexp)              (* bind e  (the translator inlines pure lets instead, so that moving one does not matter) *)
 | DBits (n q : dexp)           (* bind decode_packed_coils(next n bytes, q); the cursor skips n bytes *)
 | DWords (n : dexp)            (* bind n times read_u16_be                                            *)
 | DBytes (n : dexp).           (* bind n times read_u8                                                *)
@@ -163,17 +163,17 @@ Definition req_dec_prog_model : dec_table :=
    (0x17, ([DChkSize; DRead16; DRead16; DRead16; DRead16; DRead8; DFailIf (CNe (DVar 4) (DMul (DVar 3) (DConst 2))); DWords (DVar 3)],
            (s2l "ReadWriteMultipleRegisters", [0; 1; 2; 5]%nat)))].
 Definition rsp_bits (name : string) : darm :=
-  ([DChkSize; DRead8; DFailIf (CLt DLenAll (DAdd (DConst 2) (DVar 0))); DLet (DMul (DVar 0) (DConst 8)); DBits (DVar 0) (DVar 1)],
-   (s2l name, [2]%nat)).
+  ([DChkSize; DRead8; DFailIf (CLt DLenAll (DAdd (DConst 2) (DVar 0))); DBits (DVar 0) (DMul (DVar 0) (DConst 8))],
+   (s2l name, [1]%nat)).
 Definition rsp_words (name : string) : darm :=
-  ([DChkSize; DRead8; DFailIf (COdd (DVar 0)); DLet (DDiv (DVar 0) (DConst 2)); DWords (DVar 1)], (s2l name, [2]%nat)).
+  ([DChkSize; DRead8; DFailIf (COdd (DVar 0)); DWords (DDiv (DVar 0) (DConst 2))], (s2l name, [1]%nat)).
 Definition rsp_dec_prog_model : dec_table :=
   [(0x01, rsp_bits "ReadCoils"); (0x02, rsp_bits "ReadDiscreteInputs");
    (0x05, ([DRead16; DReadCoil], (s2l "WriteSingleCoil", [0; 1]%nat)));
    (0x0F, two16 "WriteMultipleCoils");
    (0x04, rsp_words "ReadInputRegisters"); (0x03, rsp_words "ReadHoldingRegisters");
    (0x06, two16 "WriteSingleRegister"); (0x10, two16 "WriteMultipleRegisters");
-   (0x11, ([DChkSize; DRead8; DFailIf (CLt (DVar 0) (DConst 2)); DLet (DSub (DVar 0) (DConst 2)); DRead8; DReadRun; DBytes (DVar 1)],
-           (s2l "ReportServerId", [2; 3; 4]%nat)));
+   (0x11, ([DChkSize; DRead8; DFailIf (CLt (DVar 0) (DConst 2)); DRead8; DReadRun; DBytes (DSub (DVar 0) (DConst 2))],
+           (s2l "ReportServerId", [1; 2; 3]%nat)));
    (0x16, three16 "MaskWriteRegister");
    (0x17, rsp_words "ReadWriteMultipleRegisters")].
